@@ -122,3 +122,15 @@ package route
 //@   ensures[msgpack-timestamp-is-the-instant] b.MsgPackTimestamp != nil ==> result == *b.MsgPackTimestamp
 //@   ensures[otherwise-the-time-field] b.MsgPackTimestamp == nil ==> result == getEventTime(b.Timestamp)
 //@   modifies nothing
+
+// ---- C28: panic-freedom of request-parsing helpers, for every input
+//@ contract route.getEventTime#safety props C28
+//@   arith wraps
+//@   modifies nothing
+
+// A batch body's array header must not be trusted for the allocation size: the
+// allocation is bounded by the number of bytes still to be read.
+//@ contract route.(*batchedEvents).UnmarshalMsg props C28 havoc
+//@   assert only make-size make-bounded
+//@   assert makebound len(bts)
+//@   requires b != nil
